@@ -45,7 +45,9 @@ func (f fNot) String() string   { return "!" + f.X.String() }
 func (f fAnd) String() string   { return "(" + f.A.String() + " && " + f.B.String() + ")" }
 func (f fOr) String() string    { return "(" + f.A.String() + " || " + f.B.String() + ")" }
 func (f fAtom) String() string  { return f.Key }
-func (f fCmp) String() string   { return "(" + f.L.String() + " " + f.Op.String() + " " + f.R.String() + ")" }
+func (f fCmp) String() string {
+	return "(" + f.L.String() + " " + f.Op.String() + " " + f.R.String() + ")"
+}
 
 func mkAnd(a, b formula) formula {
 	if c, ok := a.(fConst); ok {
@@ -425,7 +427,6 @@ func (c *Ctx) checkTable(rule, construct string, pos token.Pos, f formula, boolA
 	}
 }
 
-
 // forAll enumerates every assignment of the atoms occurring in f (booleans:
 // both values; integer terms: the given domain, default 0..2) and reports the
 // first assignment for which holds(e, f(e)) is false. Atoms the rule does not
@@ -545,7 +546,6 @@ func kindSetString(m map[int64]bool) string {
 	}
 	return "{" + strings.Join(names, ",") + "}"
 }
-
 
 // kindSwitchTop walks up the dominator tree from b through blocks that end in
 // a comparison of one and the same value with a constant (the lowering of a
